@@ -367,7 +367,17 @@ func (g *exGen) paramLiteral(doc int) map[string]interface{} {
 	if g.r.chance(1, 4) {
 		return map[string]interface{}{"name": g.label("q"), "in": "query", "type": "string"}
 	}
-	return map[string]interface{}{"name": g.label("b"), "in": "body", "schema": g.elementSchema(doc)}
+	in := "body"
+	if g.r.chance(1, 5) {
+		// the expander's contract is structural: a schema under a parameter is walked wherever the parameter is sent
+		// (a document may be invalid Swagger in this respect and still has to expand, or to fail loudly)
+		in = g.r.pick([]string{"query", "header", "path", "formData", ""})
+	}
+	m := map[string]interface{}{"name": g.label("b"), "schema": g.elementSchema(doc)}
+	if in != "" {
+		m["in"] = in
+	}
+	return m
 }
 
 func (g *exGen) responseLiteral(doc int) map[string]interface{} {
@@ -807,6 +817,14 @@ func exGraphs(r *rng, n int, tier string, ids bool) []*exGraph {
 	for _, g := range exImportedElementGraphs() {
 		add(g)
 	}
+	// some of the self-contained single documents once more, as roots without a location
+	k := 0
+	for _, g := range append([]*exGraph{}, out...) {
+		if k < 2+n/8 && len(g.Docs) == 1 && len(g.Missing) == 0 && exOnlyFragmentRefs(g.Docs[g.Root]) && !bytes.Contains(g.Docs[g.Root], []byte(`"id":`)) {
+			add(g.inMemory())
+			k++
+		}
+	}
 	return out
 }
 
@@ -843,6 +861,21 @@ func exImportedElementGraphs() []*exGraph {
 				"definitions": m{"T": m{"type": "integer", "description": "T of root"}, "P": m{"type": "boolean", "description": "P of root"}}}
 			out = append(out, exFromGeneric(m{"file:///i/root.json": root, "file:///i/" + dir + "items.json": items, "file:///i/" + dir + "models.json": models}, "file:///i/root.json"))
 		}
+	}
+	// two documents of one folder - also: the root and a document next to it - whose schemas below parameters and responses refer
+	// to their own definitions by the same fragment-only text; the definitions differ
+	for _, layout := range []string{"shared/", ""} {
+		mk := func(who string) m {
+			return m{"swagger": "2.0", "info": m{"title": who, "version": "1"}, "paths": m{},
+				"parameters":  m{"p": m{"name": "p", "in": "body", "schema": m{"$ref": "#/definitions/Error"}}},
+				"responses":   m{"r": m{"description": "r of " + who, "schema": m{"type": "array", "items": m{"$ref": "#/definitions/Error"}}}},
+				"definitions": m{"Error": m{"type": "object", "description": "Error of " + who, "properties": m{"code": m{"type": "string", "description": who}}}}}
+		}
+		root := mk("root")
+		root["paths"] = m{"/a": m{"get": m{"parameters": []interface{}{m{"$ref": layout + "params.json#/parameters/p"}},
+			"responses": m{"200": m{"$ref": layout + "responses.json#/responses/r"}, "404": m{"$ref": "#/responses/r"}, "500": m{"$ref": layout + "params.json#/responses/r"}}}},
+			"/b": m{"post": m{"parameters": []interface{}{m{"$ref": "#/parameters/p"}, m{"$ref": layout + "responses.json#/parameters/p"}}, "responses": m{"200": m{"$ref": layout + "responses.json#/responses/r"}}}}}
+		out = append(out, exFromGeneric(m{"file:///s/root.json": root, "file:///s/" + layout + "params.json": mk("params"), "file:///s/" + layout + "responses.json": mk("responses")}, "file:///s/root.json"))
 	}
 	// a document served at a location with a query (a revision, a format selector): part of its identity for anything but a
 	// local file; referenced several times and referring to itself by fragment
@@ -1060,18 +1093,19 @@ type exOpts struct {
 }
 
 type exCall struct {
-	Op       string                     `json:"op"`
-	Docs     map[string]json.RawMessage `json:"docs"`
-	Root     string                     `json:"root"`
-	Opts     exOpts                     `json:"opts"`
-	Missing  []string                   `json:"missing,omitempty"`
-	Spelling string                     `json:"spelling,omitempty"` // RelativeBase as the caller writes it (default: Root)
-	Twice    bool                       `json:"twice,omitempty"`    // expand_spec: the same typed root is expanded a second time
-	Kind     string                     `json:"kind,omitempty"`     // resolve: Schema Parameter Response PathItem Items
-	Ref      string                     `json:"ref,omitempty"`
-	RootMode string                     `json:"root_mode,omitempty"` // typed generic none
-	Element  json.RawMessage            `json:"element,omitempty"`
-	Entry    string                     `json:"entry,omitempty"` // with_root_typed with_root_generic base_path
+	Op        string                     `json:"op"`
+	Docs      map[string]json.RawMessage `json:"docs"`
+	Root      string                     `json:"root"`
+	Opts      exOpts                     `json:"opts"`
+	Missing   []string                   `json:"missing,omitempty"`
+	Spelling  string                     `json:"spelling,omitempty"` // RelativeBase as the caller writes it (default: Root)
+	Twice     bool                       `json:"twice,omitempty"`    // expand_spec: the same typed root is expanded a second time
+	Kind      string                     `json:"kind,omitempty"`     // resolve: Schema Parameter Response PathItem Items
+	Ref       string                     `json:"ref,omitempty"`
+	RootMode  string                     `json:"root_mode,omitempty"` // typed generic none
+	Element   json.RawMessage            `json:"element,omitempty"`
+	Entry     string                     `json:"entry,omitempty"`      // with_root_typed with_root_generic base_path
+	EmptyBase bool                       `json:"empty_base,omitempty"` // the options carry no location (the root is the pseudo root)
 }
 
 type exOutcome struct {
@@ -1219,6 +1253,9 @@ func exExecWith(c *exCall, global bool) (o *exOutcome) {
 	base := c.Root
 	if c.Spelling != "" {
 		base = c.Spelling
+	}
+	if c.EmptyBase {
+		base = ""
 	}
 	opts := &spec.ExpandOptions{RelativeBase: base, SkipSchemas: c.Opts.Skip, ContinueOnError: c.Opts.Cont, AbsoluteCircularRef: c.Opts.Abs, PathLoader: loader}
 	before := *opts
@@ -1610,7 +1647,15 @@ func init() {
 // the `expand` cases
 
 func (g *exGraph) call(op string, o exOpts) *exCall {
-	return &exCall{Op: op, Docs: g.Docs, Root: g.Root, Opts: o, Missing: g.Missing}
+	// a root filed at the library's own pseudo location is a document held in memory only: the caller has no location to give
+	return &exCall{Op: op, Docs: g.Docs, Root: g.Root, Opts: o, Missing: g.Missing, EmptyBase: g.Root == exPseudoRoot}
+}
+
+// inMemory: the same single, self-contained document as a root that has no location (RelativeBase left empty).
+func (g *exGraph) inMemory() *exGraph {
+	c := &exGraph{Docs: map[string]json.RawMessage{exPseudoRoot: g.Docs[g.Root]}, Root: exPseudoRoot}
+	c.analyse()
+	return c
 }
 
 // exUnfoldAll unfolds every element position of a root document (given decoded) in the store.
